@@ -1,5 +1,6 @@
 import Gv.Oracle.Common
 import Gv.Model.Weights
+import Gv.Oracle.CliDefaults
 /-!
 Oracle handler for C20 (random site weights, Dirichlet / gamma samplers, incomplete gamma ratio, discrete-gamma
 rate categories).  Wire format: see `tools/harness/ops_weights.go`.
@@ -167,8 +168,78 @@ def resStr : Res (List Float) → String
 
 def implToks (impl : String) : List String := impl.splitOn " "
 
+/-! ### `goalign build weightboot [-n k] --seed s` (cmd/weightboot.go) -/
+
+/-- `k` weight vectors one after the other from the one stream -/
+def weightbootProg (L : Nat) : Nat → FProg Float (Res (List (List Float)))
+  | 0 => .pure (.ok [])
+  | k + 1 => FProg.bind (buildWeightsDirichlet L fuelC) fun
+    | .ok w => FProg.bind (weightbootProg L k) fun
+      | .ok ws => .pure (.ok (w :: ws))
+      | .err => .pure .err
+      | .exit => .pure .exit
+      | .fuel => .pure .fuel
+    | .err => .pure .err
+    | .exit => .pure .exit
+    | .fuel => .pure .fuel
+
+/-- `--flag value` pairs of the command, short names replaced; `none` = a flag that is not known -/
+def wbOpts : List String → Option (List (String × String))
+  | [] => some []
+  | [_] => none
+  | a :: v :: rest =>
+    let a := if a == "-n" then "--nboot" else if a == "-o" then "--output" else a
+    if a == "--nboot" || a == "--seed" || a == "--output" then (wbOpts rest).map ((a, v) :: ·) else none
+
+/-- a number printed with `%f`: digits, a point, exactly six digits; its value -/
+def fixed6? (t : String) : Option Float :=
+  match t.splitOn "." with
+  | [a, b] =>
+    if b.length == 6 && !a.isEmpty && a.all Char.isDigit && b.all Char.isDigit then
+      (a ++ b).toNat?.map fun n => Float.ofScientific n true 6
+    else none
+  | _ => none
+
+/-- what the command must print, as the exact weights: the first alignment of the FASTA input has `L` sites; one line
+per replicate, `L` weights each (none for `L <= 2`: the library call returns no vector).  `none` = not modelled
+(no `--seed`: the clock seeds the generator; an output file; a sampler that runs out of fuel). -/
+def weightbootExpected (stdin : String) (fl : List String) : Option (List (List Float)) := do
+  let o ← wbOpts fl
+  let get (f : String) : Option String := (o.reverse.find? (·.1 == f)).map (·.2)
+  let out := (get "--output").getD (← CliDefaults.effective "weightbootCmd" "output")
+  let nb ← parseInt? ((get "--nboot").getD (← CliDefaults.effective "weightbootCmd" "nboot"))
+  let seed ← parseInt? (← get "--seed")
+  if seed == -1 || !(out == "stdout" || out == "-") then none
+  -- one sequence per line, every row of the same length (the generator writes it so)
+  let L ← match stdin.splitOn "|" with
+    | h :: q :: _ => if h.startsWith ">" && !q.startsWith ">" then some q.length else none
+    | _ => none
+  if L == 0 then none
+  match runSeedF (weightbootProg L nb.toNat) seed with
+  | .ok ws => some ws
+  | _ => none
+
+def weightbootVerdict (stdin : String) (fl : List String) (impl : String) : Ans :=
+  match weightbootExpected stdin fl with
+  | none => ⟨"unmodelled", "na"⟩
+  | some ws =>
+    let want := "rc=0 " ++ toString ws.length ++ " lines: " ++ "|".intercalate (ws.map fun w => " ".intercalate (w.map toString))
+    if !impl.startsWith "rc=0 out=" then ⟨want, "fail:printed-weights-differ-from-library-replay"⟩ else
+    let body := (impl.drop 9).toString
+    -- layout: every line ends with a newline, the weights of a line are separated by one tab (shown as a blank)
+    let lines := body.splitOn "|"
+    let okLayout := lines.getLast? == some "" && lines.length == ws.length + 1
+    let okVals := (lines.dropLast.zip ws).all fun (ln, w) =>
+      let toks := if ln.isEmpty then [] else ln.splitOn " "
+      toks.length == w.length && (toks.zip w).all fun (t, x) =>
+        match fixed6? t with
+        | some v => (v - x).abs ≤ 0.00000051
+        | none => false
+    if okLayout && okVals then ⟨impl, "pass"⟩ else ⟨want, "fail:printed-weights-differ-from-library-replay"⟩
+
 def handle : Handler := fun op args impl =>
   match op, args with
+  | "cli_lib", stdin :: "build" :: "weightboot" :: fl => some (weightbootVerdict stdin fl impl)
   | "c20consts", _ =>
     let m : List Float := [cE, magicConst, Float.log 4, c1em7, c9999999, accurate, overflowC, dblMin]
     let ok := match (implToks impl).mapM tokFloat? with
